@@ -74,6 +74,21 @@ Theorem C13_decide_path : forall cs pol x p ps,
     /\ map Some ps = x_params e.
 Proof. exact (decide_path tp). Qed.
 
+(* "a configured rename replaces the path's FIRST segment": everything from the
+   first "::" on is the original text, so every later segment is unchanged
+   (also when the crate's identifier occurs again in the path) *)
+Theorem C13_rename_preserves_tail : forall cs pol x p ps,
+  decide tp cs pol x = Use p ps ->
+  exists e rq,
+    x = ExtOk e (Some rq)
+    /\ p = sep ++ head_segment cs (x_crate e)
+              ++ skipn (length (dash_to_us (x_crate e))) (x_path e)
+    /\ (no_colon (dash_to_us (x_crate e)) -> no_colon (head_segment cs (x_crate e)) ->
+        exists tail,
+          split_sep (x_path e) = dash_to_us (x_crate e) :: tail
+          /\ split_sep (skipn 2 p) = head_segment cs (x_crate e) :: tail).
+Proof. exact (rename_preserves_tail tp). Qed.
+
 (* "the schema's own structure is not generated": the structural conversion is
    reached exactly when the decision is Generate *)
 Theorem C13_use_skips_structure : forall cs pol n x,
@@ -173,6 +188,17 @@ Example ex_newtype :
               (NRequired (ustring_of_string "Alias"))
               (ExtOk (mk_ext "my-crate" "my_crate::m::Thing" []) (Some ex_req)))
   = "newtype ::my_crate::m::Thing".
+Proof. vm_compute. reflexivity. Qed.
+
+Example ex_rename_recurring_ident :
+  show_decision (decide (fun _ => true) (mk_crates [("util", CVAny, Some "my-util")]) PGenerate
+                        (ExtOk (mk_ext "util" "util::util_types::Wrap<util::Inner>" []) (Some ex_req)))
+  = "use ::my_util::util_types::Wrap<util::Inner>".
+Proof. vm_compute. reflexivity. Qed.
+
+Example ex_split_sep :
+  split_sep (ustring_of_string "util::util_types::Gizmo")
+  = map ustring_of_string ["util"; "util_types"; "Gizmo"].
 Proof. vm_compute. reflexivity. Qed.
 
 Example ex_not_type_path :
